@@ -304,6 +304,24 @@ type TOptStruct struct {
 	ID int64
 }
 
+// TJSON: columns holding the JSON encoding of a Go value (struct with slice and
+// pointer members, slice). No strings or floats inside: invalid UTF-8 and NaN
+// have no JSON form.
+type tJSONLeaf struct {
+	V int32 `json:"v"`
+}
+type tJSONIn struct {
+	N int64      `json:"n"`
+	L []int32    `json:"l"`
+	P *tJSONLeaf `json:"p,omitempty"`
+	B bool       `json:"b"`
+}
+type TJSON struct {
+	ID int64
+	J  tJSONIn `parquet:",json"`
+	JL []int64 `parquet:",json"`
+}
+
 // RT is one row type with thunks instantiating the generic entry points.
 type RT struct {
 	Name string
@@ -550,6 +568,7 @@ func mkRTWith[T any](name string, sc func() *parquet.Schema, rows []any) *RT {
 }
 
 var rowTypes = []*RT{
+	mkRT[TJSON]("JSON"),
 	mkRT[TScalars]("Scalars"), mkRT[TScalars2]("Scalars2"), mkRT[TOptScalars]("OptScalars"), mkRT[TOptScalars2]("OptScalars2"),
 	mkRT[TPointers]("Pointers"), mkRT[TEncodings]("Encodings"), mkRT[TOptEncodings]("OptEncodings"), mkRT[TLogical]("Logical"),
 	mkRT[TSlices]("Slices"), mkRT[TLists]("Lists"), mkRT[TOptList]("OptList"), mkRT[TOptSlice]("OptSlice"),
